@@ -660,3 +660,10 @@ type VerifTraceBlockT = extractor.VerifTraceBlock
 
 // VerifRemoveDuplicateAttributes is domutil.RemoveDuplicateAttributes (it rewrites root in place).
 func VerifRemoveDuplicateAttributes(root *html.Node) { domutil.RemoveDuplicateAttributes(root) }
+
+// VerifSrcSetURLs is domutil.GetSrcSetURLs on an <img> carrying the given srcset.
+func VerifSrcSetURLs(srcset string) []string {
+	img := dom.CreateElement("img")
+	dom.SetAttribute(img, "srcset", srcset)
+	return domutil.GetSrcSetURLs(img)
+}
